@@ -38,6 +38,15 @@ PINNED = {
         }
     ],
     "C14": [
+        # D21: the empty solution (reachable: delete every node) and the CSV / GEFF channel
+        {
+            "world": dict(_PIN_BASE, ndim=3, shape=[2, 6, 6], seg=True, nodes={}, edges=[], subscribers=0),
+            "ops": [{"op": "reimport", "fmt": "internal", "allow_empty": True}, {"op": "reimport", "fmt": "csv", "allow_empty": True}],
+        },
+        {
+            "world": dict(_PIN_BASE, ndim=3, shape=[2, 6, 6], seg=True, nodes={}, edges=[], subscribers=0),
+            "ops": [{"op": "reimport", "fmt": "geff2", "with_pos": False, "allow_empty": True}],
+        },
         {
             "world": {
                 "ndim": 3, "shape": [2, 6, 6], "seg": True, "dtype": "int32", "scale": None, "time_key": "time", "pos_mode": "single",
